@@ -838,10 +838,16 @@ class DateParserPlugin(plugins.Plugin):
             if isinstance(node, syntax.GroupNode):
                 group[i] = self.do_dates(parser, node)
             elif fname in datefields:
-                if node.has_text:
-                    group[i] = self.text_to_dt(node)
-                elif isinstance(node, syntax.RangeNode):
-                    group[i] = self.range_to_dt(node)
+                try:
+                    if node.has_text:
+                        group[i] = self.text_to_dt(node)
+                    elif isinstance(node, syntax.RangeNode):
+                        group[i] = self.range_to_dt(node)
+                except Exception:
+                    # The user typed a date the calendar doesn't have (e.g.
+                    # "feb 30"): that is an error in the query, not a crash
+                    e = sys.exc_info()[1]
+                    group[i] = self.errorize(e, node)
         return group
 
 
